@@ -416,6 +416,18 @@ impl CoreDocument {
     if self.resolve_method(method.id(), None).is_some() || self.service().query(method.id()).is_some() {
       return Err(Error::MethodInsertionError);
     }
+    // `resolve_method` stops at the first relationship entry matching the DID and fragment. If that entry is a
+    // reference whose method is not part of the document, nothing is resolved, so the check above neither sees
+    // that reference nor any method with the same identifier stored behind it. Compare identifiers directly:
+    // the identifier must not belong to an existing method, and an embedded method must not alias a reference.
+    if self.all_methods().any(|existing| existing.id() == method.id())
+      || (matches!(scope, MethodScope::VerificationRelationship(_))
+        && self
+          .verification_relationships()
+          .any(|method_ref| method_ref.id() == method.id()))
+    {
+      return Err(Error::MethodInsertionError);
+    }
     match scope {
       MethodScope::VerificationMethod => self.data.verification_method.append(method),
       MethodScope::VerificationRelationship(MethodRelationship::Authentication) => {
